@@ -202,7 +202,9 @@ def _sum_constants(values: Sequence[ast.AST]) -> ast.AST:
 def _integrate_over(expr: ast.AST, generators: Sequence[ast.comprehension]) -> ast.AST:
     source = core.unparse(expr).strip()
     sym_expr = _parse_sympy_expr(source)
-    for comprehension in generators:
+    # The bounds of a generator may mention the targets of the generators before it, so the
+    # innermost generator is summed over first.
+    for comprehension in reversed(generators):
         integrand = _parse_sympy_expr(core.unparse(comprehension.target).strip())
         if isinstance(comprehension.iter, ast.Call):
             start, end, step = _get_range_start_end(comprehension.iter)
